@@ -167,6 +167,22 @@ fn gen_word_bytes(t: &mut Tape, tr: usize) -> Vec<u8> {
     }
     for _ in 0..nwords {
         let mut w = t.raw();
+        // exact well-known words (aliases that exist only for one field pattern, barriers, system
+        // instructions): a uniformly random word never is one of them
+        if t.chance(1, 12) {
+            let golden: &[u32] = match TRANSLATORS[tr] {
+                "mips" | "mipsel" => &[0x0000_0000, 0x03e0_0008, 0x0000_000c, 0x0000_000d, 0x0000_000f, 0x0320_f809, 0x7c03_e83b, 0x0000_0040, 0x0000_00c0, 0x1000_ffff, 0x0411_0001, 0x4200_0018, 0x0000_0034],
+                "ppc" => &[0x6000_0000, 0x4e80_0020, 0x4e80_0420, 0x4e80_0421, 0x7c08_02a6, 0x7c08_03a6, 0x7c09_03a6, 0x4400_0002, 0x7c00_04ac, 0x4c00_012c, 0x7c20_04ac, 0x4800_0000, 0x4800_0001, 0x4200_0000, 0x7fe0_0008, 0x3800_0000, 0x7c00_0378],
+                _ => &[0xd503_201f, 0xd65f_03c0, 0xd61f_0000, 0xd63f_0000, 0xd400_0001, 0xd420_0000, 0xd503_3fdf, 0xd503_3f9f, 0xd503_305f, 0xaa00_03e0, 0x9100_03fd, 0xd503_233f, 0xd503_23bf, 0x1400_0000, 0x9400_0000, 0xd69f_03e0],
+            };
+            w = golden[t.below(golden.len())];
+            if big {
+                v.extend_from_slice(&w.to_be_bytes());
+            } else {
+                v.extend_from_slice(&w.to_le_bytes());
+            }
+            continue;
+        }
         match TRANSLATORS[tr] {
             "mips" | "mipsel" => {
                 // make SPECIAL / REGIMM / SPECIAL2 / branches frequent so their sub-fields are swept
